@@ -23,6 +23,13 @@ twice first) the concatenated output must have no line wider than W and must equ
 (characters and styles), what the same events produce on equal but separate objects (keys
 "shared/<slot>/overflow", "shared/<slot>/differs-from-copies").
 
+Family CON (trees of 3 / 4 nodes, every shape, multi-line and panel labels) is rendered at the full width set on
+all three consoles.  Part "bars": Bar / ProgressBar on a FINE grid relative to the cell grid -- for every W of
+BAR_WIDTHS, size = 32 W (one unit = 1/32 cell), begin at every grid position, end - begin in BAR_SPANS (begin > end,
+begin == end, slivers thinner than 1/8 cell, one cell, the rest), plus size 0 and an explicit width= option; for
+ProgressBar total = 32 W, completed at every grid position and beyond both ends, pulse on / off, total 0; on the
+utf8 and ascii-only consoles: no line wider than W (keys "bar/fine-grid", "pbar/fine-grid").
+
 A violating (tree, W) is shrunk before it is keyed: the blame descends into a child that already
 overflows when rendered alone, then every option that is not needed for the overflow is reset to
 its default.  Finding key = "<kind of the blamed node>/<its remaining non-default options>" (plus
@@ -30,9 +37,10 @@ its default.  Finding key = "<kind of the blamed node>/<its remaining non-defaul
 render is "crash/<Type>/<file>:<function>".
 
 Measured (default 16 workers):
-    quick     60.3 k trees (incl. WT 672, SH 68 x 5 modes), 568 256 evaluations, 202 outcome signatures
-              (134 non-trivial), ~570 CPU-s, 45 s wall on the nearly idle machine (57-76 s under load)
-    thorough  493 k trees + WT 1 570 + SH, ~4.9 M renders, ~6 100 CPU-s (688 s wall under load, before WT / SH)
+    quick     60.6 k trees (incl. WT 672, CON 297 x 3 consoles, SH 68 x 5 modes) + 71 896 Bar / ProgressBar grid cases,
+              651 384 evaluations, 214 outcome signatures (142 non-trivial), ~570 CPU-s (45 s wall on a nearly idle
+              machine before the round-4 parts, which add ~15 CPU-s; 125 s wall at load average 55-68)
+    thorough  493 k trees + WT 1 570 + CON + SH + bars, ~5 M renders, ~6 100 CPU-s (688 s wall under load, before WT / SH / CON / bars)
 """
 import os
 import traceback
@@ -300,10 +308,68 @@ def check_shared(d, res):
             check_shared_case(d, W, mode, res)
 
 
+# ------------------------------------------------------------------ Bar / ProgressBar on a fine grid
+BAR_WIDTHS = (1, 2, 3, 4, 5, 7, 8, 10, 16, 20, 40)
+BAR_GRID = 32                       # units per cell
+BAR_SPANS = (-3, 0, 1, 2, 3, 5, 32, None)     # end - begin in units; None = up to the end
+
+
+def check_bar_case(case, res):
+    """case: {"part": "bars", "what": "bar" | "pbar", "W", "console", + constructor arguments}"""
+    con = gen.make_console(case["console"])
+    W = case["W"]
+    try:
+        if case["what"] == "bar":
+            from rich.bar import Bar
+            obj = Bar(case["size"], case["begin"], case["end"], width=case.get("width"))
+        else:
+            from rich.progress_bar import ProgressBar
+            obj = ProgressBar(total=case["total"], completed=case["completed"], width=case.get("width"),
+                              pulse=case.get("pulse", False), animation_time=0.0)
+        ws = gen.render_widths(con, obj, W)
+    except Exception as e:  # noqa: BLE001
+        res.evaluations += 1
+        res.violate(crash_key(e), case, "%s: %s" % (type(e).__name__, e))
+        return
+    res.evaluations += 1
+    mx = max(ws) if ws else 0
+    res.sig((case["what"], case["console"], mx == W, mx == 0, case.get("width") is not None, mx > W),
+            nontrivial=mx >= W)
+    if mx > W:
+        res.violate("%s/fine-grid" % case["what"], case, "a line of %d cells at W=%d" % (mx, W))
+
+
+def bar_cases(W):
+    n = BAR_GRID * W
+    for ckind in ("utf8", "ascii"):
+        base = {"part": "bars", "W": W, "console": ckind}
+        for b in range(0, n + 1):
+            for span in BAR_SPANS:
+                e = n if span is None else b + span
+                yield dict(base, what="bar", size=n, begin=b, end=e)
+            if b % 8 == 1:
+                yield dict(base, what="bar", size=n, begin=b, end=b + 1, width=max(1, W // 2))
+                yield dict(base, what="bar", size=n, begin=b, end=b + 1, width=W + 3)
+        yield dict(base, what="bar", size=0, begin=0, end=0)
+        yield dict(base, what="bar", size=0, begin=0, end=5)
+        for c in range(-2, n + 3):
+            yield dict(base, what="pbar", total=n, completed=c)
+            if c % 8 == 1:
+                yield dict(base, what="pbar", total=n, completed=c, pulse=True)
+                yield dict(base, what="pbar", total=n, completed=c, width=max(1, W // 2))
+                yield dict(base, what="pbar", total=n, completed=c, width=W + 3)
+        yield dict(base, what="pbar", total=0, completed=0)
+        yield dict(base, what="pbar", total=0, completed=3)
+
+
 def check_tree(d, tier, fam_name, res):
     sm = struct_min(d)
     if fam_name == "SH":
         check_shared(d, res)
+    if fam_name == "CON":
+        for ckind in ("ascii", "legacy"):
+            for W in widths(sm, FULL):
+                check_case(d, W, ckind, res, sm)
     for W in widths(sm, wmode(tier, fam_name)):
         check_case(d, W, "utf8", res, sm)
     if fam_name in ALT_CONSOLE_FAMILIES:
@@ -320,11 +386,17 @@ def plan(tier, seed):
         size = gen.family_size(fam)
         n = max(1, -(-size // per))
         shards += [{"fam": fi, "name": fam["name"], "i": i, "n": n} for i in range(n)]
+    shards += [{"part": "bars", "W": W} for W in BAR_WIDTHS]
     return shards
 
 
 def run_shard(sh, tier, seed):
     res = Result()
+    if sh.get("part") == "bars":
+        for case in bar_cases(sh["W"]):
+            check_bar_case(case, res)
+            res.count("bar_cases")
+        return res
     fam = gen.families(tier, seed)[sh["fam"]]
     i, n = sh["i"], sh["n"]
     for idx, d in enumerate(gen.family_trees(fam)):
@@ -352,13 +424,17 @@ def describe(tier, seed, res):
                  "option deviations, alternatives per option) are in gen.families.__doc__. Each tree x every W of its "
                  "width set (full: struct_min..struct_min+8 u {20,40,80,200}; short: struct_min..+5 u {20,80}; narrow: "
                  "struct_min..+3 u {20,80}) on the utf8 console; D1 and CH3 also on ascii-only and legacy_windows "
-                 "consoles at struct_min, struct_min+1, 20. WT = fixed width options (below and above the available "
+                 "consoles at struct_min, struct_min+1, 20. CON = trees of 3 / 4 nodes with multi-line and panel labels, full widths on "
+                 "all three consoles. bars = Bar / ProgressBar for W in %s with size / total = 32 W, begin / completed at every "
+                 "1/32-cell position, end - begin in %s units (None = to the end), size 0 / total 0, width= W//2 and W+3, pulse, on "
+                 "utf8 and ascii-only consoles (%d cases). WT = fixed width options (below and above the available "
                  "width) x titles x expand. SH = one Text object shared between a host's argument / kid slot and the "
                  "host's sibling: additionally every mode of %s x full widths, output compared with the same events on "
                  "separate equal objects and measured against W. "
                  "An evaluation is one render; it is non-trivial when some line uses the full width W (the layout was "
                  "constrained) or exceeds it; distinct = (root kind, lines, tight, ragged, at-minimum, overflow) "
-                 "signatures. Not the full option product: deviation-bounded." % ("; ".join(parts), sorted(SHARED_MODES))),
+                 "signatures. Not the full option product: deviation-bounded." % ("; ".join(parts), list(BAR_WIDTHS), list(BAR_SPANS), res.counters.get("bar_cases", 0),
+                                                                                 sorted(SHARED_MODES))),
         "assumptions": [
             "struct_min is computed from the description (vf/structmin.py) and errs on the large side; widths below it are not judged (C14 covers termination there)",
             "tables have columns free to wrap: no Table(width), Columns(width), column width / min_width / no_wrap",
@@ -371,7 +447,9 @@ def describe(tier, seed, res):
 
 def replay(case):
     res = Result()
-    if case.get("mode"):
+    if case.get("part") == "bars":
+        check_bar_case(case, res)
+    elif case.get("mode"):
         check_shared_case(case["tree"], case["W"], case["mode"], res)
     else:
         check_case(case["tree"], case["W"], case.get("console", "utf8"), res)
